@@ -64,8 +64,8 @@ class Merge:
             self.inconclusive.append(str(res["inconclusive"]))
 
 
-def run_workers(cid, cases, tier, jobs, shard_timeout, xdev=False):
-    scratch = ROOT / ".scratch" / f"{cid}-{os.getpid()}"
+def run_workers(cid, cases, tier, jobs, shard_timeout, xdev=False, scratch=None):
+    scratch = scratch or (ROOT / ".scratch" / f"{cid}-{os.getpid()}")
     scratch.mkdir(parents=True, exist_ok=True)
     jobs = max(1, min(jobs, len(cases)))
     shards = [cases[i::jobs] for i in range(jobs)]
@@ -129,12 +129,25 @@ def main_run(cid, tier, seed, jobs=None, replay=None):
                 print(f"VIOLATION property={cid} replay={replay}")
         return 1 if any(not match_known(v, known) for v in vs) else 0
 
-    cases = mod.gen_cases(tier, seed)
+    scratch0 = ROOT / ".scratch" / f"{cid}-{os.getpid()}"
+    scratch0.mkdir(parents=True, exist_ok=True)
+    os.environ["VF_SCRATCH"] = str(scratch0)
+    prep_problem = None
+    if hasattr(mod, "prepare"):
+        try:
+            mod.prepare(tier, seed, scratch0)
+        except Exception as e:  # the shared fixture could not be built from the working tree
+            import traceback
+            prep_problem = "prepare() failed: " + traceback.format_exc()[-1500:]
+    cases = [] if prep_problem else mod.gen_cases(tier, seed)
     for i, c in enumerate(cases):
         c.setdefault("n", i)
     timeout = getattr(mod, "SHARD_TIMEOUT", {"quick": 600, "thorough": 7200})[tier]
     xdev = tier == "thorough" and getattr(mod, "XDEV", False)
-    results, problems, scratch = run_workers(cid, cases, tier, jobs, timeout, xdev)
+    if cases:
+        results, problems, scratch = run_workers(cid, cases, tier, jobs, timeout, xdev, scratch0)
+    else:
+        results, problems, scratch = [], [prep_problem or "no cases generated"], scratch0
     m = Merge()
     for r in results:
         m.add(r)
@@ -184,6 +197,9 @@ def main_run(cid, tier, seed, jobs=None, replay=None):
             print(f"VIOLATION property={cid} replay={path}")
             print(f"  mechanism={mech}: {str(v.get('detail'))[:600]}")
         print(f"  ({len(unknown)} violating observation(s), {len(seen)} distinct mechanism(s))")
+        if os.environ.get("VF_DEBUG"):
+            for v in unknown[:int(os.environ["VF_DEBUG"]) if os.environ["VF_DEBUG"].isdigit() else 200]:
+                print("   DBG", v.get("mech"), "|", str(v.get("detail"))[:300])
     elif m.inconclusive:
         rc = 2
         for r in m.inconclusive[:10]:
